@@ -292,6 +292,50 @@ func runC06(w *World, r *Report) {
 		}
 		r.Check(good, "C06.after-gate", construct, c.Pos(), "dominated by resolveInterruptCompletedTasks on the same list", "completed tasks are expanded to successors without the interrupt-after / error / rerun scan")
 	}
+	// every batch the run collects is classified: each result of tm.wait() / tm.waitAll() goes through
+	// resolveInterruptCompletedTasks before anything else looks at its tasks (a late finisher of an eager run may itself
+	// be a rerun request, a nested interrupt or an interrupt-after node)
+	{
+		n := 0
+		for _, wn := range []string{"taskManager.wait", "taskManager.waitAll"} {
+			wf := w.Fn("compose", wn)
+			for _, wc := range callsTo(run, wf) {
+				e := extractOf(wc, 0)
+				if e == nil {
+					continue
+				}
+				n++
+				var gate ssa.Instruction
+				for _, rc := range resolves {
+					a := rc.Common().Args
+					if a[len(a)-1] == ssa.Value(e) {
+						gate = rc
+					}
+				}
+				good, det := gate != nil, "the batch is never passed to resolveInterruptCompletedTasks"
+				if good {
+					for _, ref := range *e.Referrers() {
+						if ref == gate {
+							continue
+						}
+						if c, ok := ref.(*ssa.Call); ok && isBuiltin(c, "len") {
+							continue
+						}
+						if _, isDbg := ref.(*ssa.DebugRef); isDbg {
+							continue
+						}
+						if !instrDominates(gate, ref) {
+							good, det = false, "a use of the batch ("+ref.String()+") is not preceded by the classification"
+						}
+					}
+				}
+				r.Check(good, "C06.after-gate", fmt.Sprintf("runner.run: batch of %s #%d is classified before use", wf.Name(), n), wc.Pos(), "resolveInterruptCompletedTasks on the batch dominates its other uses", det+": in a Workflow a node that finishes after the first interrupting node and is itself a rerun request / nested interrupt / interrupt-after node is missing from RerunNodes / SubGraphs / AfterNodes — its zero output is pushed to its successors and it is never rerun or resumed")
+			}
+		}
+		if n < 3 {
+			r.Fail("C06.after-gate", "runner.run: collected batches", run.Pos(), fmt.Sprintf("%d wait/waitAll results found (floor 3)", n))
+		}
+	}
 	// the after cell
 	var afterCell ssa.Value
 	if len(resolves) > 0 {
@@ -532,6 +576,10 @@ func runC06(w *World, r *Report) {
 		}
 		r.Check(good, "C06.pending-before-reported", "handleInterruptWithSubGraphAndRerunNodes reports the gated nodes among its pending tasks", h.Pos(), "BeforeNodes = getHitKey(pendingTasks, r.interruptBeforeNodes)", det+": in a Workflow (eager), an interrupt-before node that was already computed as next task when a slower task asks for an interrupt (InterruptAndRerun, nested interrupt) is saved as a pending input but not reported; the resumed run restores it ungated and it executes without ever having been reported")
 	}
+
+	// the configured interrupt lists are read-only at run time: nothing filters them in place
+	r.Rule("C06.config-lists-not-rewritten", "no run-time function appends onto a re-slice (x[:k]) of a parameter slice or of a slice held by a shared object — getHitKey and friends build their result in storage of their own (shared with C09)", 1)
+	ruleResliceAppend(w, r, "C06.config-lists-not-rewritten", "compose")
 
 	r.Rule("C06.fresh-node-no-checkpoint", "a node scheduled by createTasks (not restored) starts from a context without any checkpoint: clearCheckPoint leaves the context unchanged only when it carries none (shared with C05.nested-once)", 1)
 	clearCheckPointExact(w, r, "C06.fresh-node-no-checkpoint")
